@@ -132,7 +132,7 @@ func init() {
 					return out
 				}}
 		})
-	checks["C14"] = histCheck("C14", []string{"C14.world_log_total", "C14.log_chain", "C14.log_nonpos", "C14.logCmd_chain", "C14.logCmd_count", "C14.logCmd_nonpos", "C14.logCmd_no_commits"}, histRule,
+	checks["C14"] = histCheck("C14", []string{"C14.world_log_ok", "C14.world_log_total", "C14.log_chain", "C14.log_nonpos", "C14.logCmd_chain", "C14.logCmd_count", "C14.logCmd_nonpos", "C14.logCmd_no_commits"}, histRule,
 		func(ctx *Ctx) *HistCfg {
 			return &HistCfg{Prop: "C14", Cases: tierN(ctx, 150, 1500), MinSteps: 15, MaxSteps: 60,
 				W:       weights(Weights{"commit": 25, "log": 14, "add-all": 10, "write": 14, "write-old": 10, "reset": 4, "switch": 3, "switch-c": 3, "restore": 0, "rm": 1, "junk": 0}),
